@@ -558,6 +558,9 @@ func (s *Server) receiveMessage(m Message) error {
 		}
 	case *CreateIndexMessage:
 		opt := obj.Meta
+		if opt == nil {
+			return fmt.Errorf("create index message without options: %s", obj.Index)
+		}
 		_, err := s.holder.CreateIndex(obj.Index, *opt)
 		if err != nil {
 			return err
@@ -572,17 +575,26 @@ func (s *Server) receiveMessage(m Message) error {
 			return fmt.Errorf("local index not found: %s", obj.Index)
 		}
 		opt := obj.Meta
+		if opt == nil {
+			return fmt.Errorf("create field message without options: %s/%s", obj.Index, obj.Field)
+		}
 		_, err := idx.createField(obj.Field, *opt)
 		if err != nil {
 			return err
 		}
 	case *DeleteFieldMessage:
 		idx := s.holder.Index(obj.Index)
+		if idx == nil {
+			return fmt.Errorf("local index not found: %s", obj.Index)
+		}
 		if err := idx.DeleteField(obj.Field); err != nil {
 			return err
 		}
 	case *DeleteAvailableShardMessage:
 		f := s.holder.Field(obj.Index, obj.Field)
+		if f == nil {
+			return fmt.Errorf("local field not found: %s/%s", obj.Index, obj.Field)
+		}
 		if err := f.RemoveAvailableShard(obj.ShardID); err != nil {
 			return err
 		}
@@ -610,18 +622,30 @@ func (s *Server) receiveMessage(m Message) error {
 			return err
 		}
 	case *ResizeInstruction:
+		if obj.Node == nil || obj.ClusterStatus == nil {
+			return errors.New("resize instruction without node or cluster status")
+		}
 		err := s.cluster.followResizeInstruction(obj)
 		if err != nil {
 			return err
 		}
 	case *ResizeInstructionComplete:
+		if obj.Node == nil {
+			return errors.New("resize instruction complete message without node")
+		}
 		err := s.cluster.markResizeInstructionComplete(obj)
 		if err != nil {
 			return err
 		}
 	case *SetCoordinatorMessage:
+		if obj.New == nil {
+			return errors.New("set coordinator message without node")
+		}
 		return s.cluster.setCoordinator(obj.New)
 	case *UpdateCoordinatorMessage:
+		if obj.New == nil {
+			return errors.New("update coordinator message without node")
+		}
 		s.cluster.updateCoordinator(obj.New)
 	case *NodeStateMessage:
 		err := s.cluster.receiveNodeState(obj.NodeID, obj.State)
@@ -631,11 +655,17 @@ func (s *Server) receiveMessage(m Message) error {
 	case *RecalculateCaches:
 		s.holder.recalculateCaches()
 	case *NodeEvent:
+		if obj.Node == nil {
+			return errors.New("node event without node")
+		}
 		err := s.cluster.ReceiveEvent(obj)
 		if err != nil {
 			return errors.Wrapf(err, "cluster receiving NodeEvent %v", obj)
 		}
 	case *NodeStatus:
+		if obj.Node == nil {
+			return errors.New("node status without node")
+		}
 		s.handleRemoteStatus(obj)
 	}
 
